@@ -128,6 +128,14 @@ Proof.
   unfold get_cell in Hg. rewrite Hc in Hg. inversion Hg; subst. eauto.
 Qed.
 
+(* a mapped cell holds an int or a bool, never a reference: == / != with nil does not apply *)
+Lemma nil_cmp_mapped : forall op m st h c a o2, MS m st h -> nth_error m c = Some (Some a) ->
+  nil_cmp op (get_cell st c) o2 = None.
+Proof.
+  intros op m st h c a o2 HMS Hm. destruct (ms_rel _ _ _ HMS c a Hm) as (v & z & Hc & _ & Hv).
+  unfold get_cell. rewrite Hc. destruct v; simpl in Hv; try contradiction; destruct o2; reflexivity.
+Qed.
+
 (* a fresh cell on both sides *)
 Lemma MS_alloc : forall m st h v z c st', MS m st h -> val_rel v z -> alloc st v = (c, st') ->
   MS (m ++ [Some (length h)]) st' (h ++ [z]) /\
